@@ -65,6 +65,23 @@ def verify(tree, root, index):
             out.append(parent[id(out[-1])])
         return out
 
+    def sibling_checks(node):
+        rnode = repo_of[id(node)]
+        sibs = M.kids(parent[id(node)]) if id(node) in parent else [node]
+        pos = [i for i, x in enumerate(sibs) if x is node][0]
+        exp_r = id(sibs[pos + 1]) if pos + 1 < len(sibs) else None
+        exp_l = id(sibs[pos - 1]) if pos > 0 else None
+        got_r = call("C19/right_sibling", T.right_sibling, rnode)
+        got_l = call("C19/left_sibling", T.left_sibling, rnode)
+        if (ident(got_r) if got_r is not None else None) != exp_r:
+            raise violation("C19/right_sibling", "right_sibling(%s)" % describe(node))
+        if (ident(got_l) if got_l is not None else None) != exp_l:
+            raise violation("C19/left_sibling", "left_sibling(%s)" % describe(node))
+
+    # siblings first, on the untouched tree and bottom-up: an answer must not depend on whether some other function
+    # happened to visit the parent before
+    for node in reversed(nodes):
+        sibling_checks(node)
     for node in nodes:
         rnode = repo_of[id(node)]
         # children in order of leftmost token
